@@ -1821,22 +1821,22 @@ Proof.
 Qed.
 
 (* ------------------------------------------------------------------ a STREAM event *)
-Lemma returns_none_plain s tt a : incs tt = map inc_of (objs s) -> akind_ok tt (a_kind a) = true ->
+Lemma returns_none_plain s tt a : incs tt = map inc_of (objs s) -> answer_ok tt a = true ->
   returns_none s a = plain_none a.
 Proof.
-  intros Hi Ok. unfold returns_none, plain_none. destruct (a_mode a), (a_kind a); try reflexivity.
+  intros Hi Ok. unfold returns_none, plain_none, answer_ok in *. destruct (a_mode a), (a_kind a); try reflexivity.
   cbn [akind_ok] in Ok. apply Nat.ltb_lt in Ok. rewrite Hi, map_length in Ok.
   destruct (nth_error (objs s) oid) eqn:E; [reflexivity|]. apply nth_error_None in E. lia.
 Qed.
 
-Lemma ans_ok tt answers j : forallb (fun a => akind_ok tt (a_kind a)) answers = true -> akind_ok tt (a_kind (ans answers j)) = true.
+Lemma ans_ok tt answers j : forallb (answer_ok tt) answers = true -> answer_ok tt (ans answers j) = true.
 Proof.
   intros H. unfold ans. destruct (nth_in_or_default j answers default_answer) as [Hin|E]; [|rewrite E; reflexivity].
   rewrite forallb_forall in H. now apply H.
 Qed.
 
 Lemma prio_consult_corr s tt sid answers : incs tt = map inc_of (objs s) ->
-  forallb (fun a => akind_ok tt (a_kind a)) answers = true ->
+  forallb (answer_ok tt) answers = true ->
   forall E, prio_consult s sid answers E =
     (map (fun j => EAsked j sid) (fst (consult (live_js E) answers)), snd (consult (live_js E) answers)).
 Proof.
@@ -2080,7 +2080,7 @@ Lemma step_stream s k sid stt cid host port src answers :
              /\ R (fst (step s (OStream sid stt cid host port src answers))) k'.
 Proof.
   intros H L. unfold chk_op. rewrite L. cbn [negb step tor_step].
-  assert (Ok : forallb (fun a => akind_ok (t k) (a_kind a)) answers = true).
+  assert (Ok : forallb (answer_ok (t k)) answers = true).
   { cbn [legal] in L. repeat (apply andb_true_iff in L as [L ?]). assumption. }
   clear L.
   unfold op_stream, tor_stream, stream_outcome, first_sight in *.
